@@ -944,6 +944,18 @@ class SymInt(SymNum):
         b = _num(o)
         if b is None or b[1] != "i":
             return NotImplemented
+        if z3.is_int_value(b[0]):
+            # exact arithmetic for a concrete mask made of a few bits (self is assumed non-negative:
+            # flag words): x & ~m clears the bits of m, x | m sets them
+            c = b[0].as_long()
+            mask = ~c if (name == "and" and c < 0) else (c if (name == "or" and c >= 0) else None)
+            if mask is not None and 0 <= mask < (1 << 32) and bin(mask).count("1") <= 4:
+                x = self.e
+                for k in range(mask.bit_length()):
+                    if mask >> k & 1:
+                        bit = (x / (1 << k)) % 2
+                        x = x - (1 << k) * bit if name == "and" else x + (1 << k) * (1 - bit)
+                return SymInt(z3.simplify(x))
         f = z3.Function("bit_" + name, z3.IntSort(), z3.IntSort(), z3.IntSort())
         return SymInt(f(self.e, b[0]))
 
